@@ -1549,7 +1549,11 @@ def run_c16(ctx) -> Corr:
                 "stretches T in virtual time; plus real-aiofiles runs with every built-in transport kind offline; plus contexts left "
                 "(normally, by an exception of the body or of listen(), by cancellation; once and twice on the same objects) while "
                 "the transport holds messages received and not read, with every built-in transport kind (oracle + the far end must "
-                "see the connection closed) and with an in-memory MQTT transport at every reachable saver position (oracle + model). "
+                "see the connection closed) and with an in-memory MQTT transport at every reachable saver position (oracle + model); "
+                "plus registries of 0..254 nodes that a concurrent task changes (add / remove / replace / update a node, a presentation "
+                "or id request handled by listen()) k loop iterations after the statement began, after the saver woke for a periodic "
+                "save, after the body ended - one k, or every k of the phase - on a stepping virtual-time loop, judged by the oracle "
+                "(saves started >= elapsed//900+1, clean exit, file == a registry state as of exit, file current after the last periodic save). "
                 "non-trivial = the saver exists and is not asleep-and-idle at exit, or a fault is injected")
     rng = lib.rng_for(ctx.seed, "c16")
     interval = int(getattr(pers_mod, "SAVE_INTERVAL", 0))
@@ -1560,6 +1564,8 @@ def run_c16(ctx) -> Corr:
     scenarios: list[tuple[str, dict, str]] = []
     corpus_histories = []
     for c in lib.load_corpus("C16"):
+        if "churn" in c:        # a registry changed by a concurrent task: run by churn.churn_group
+            continue
         if "sessions" in c:     # a history: [{"position":…, "faults":{…}, "file_before": "add"|"none"}, …]
             corpus_histories.append(([(x["position"], dict(x.get("faults", {})), x.get("file_before", "add")) for x in c["sessions"]],
                                      "corpus:" + c["_file"]))
@@ -1883,6 +1889,11 @@ def run_c16(ctx) -> Corr:
                 pending.append((case, obs))
 
     asyncio.run(gated_with_unread())
+
+    # registries of realistic size (0 .. 254 nodes) that another task changes at every suspension point of entering,
+    # of a periodic save and of leaving (harness/props/churn.py), on a stepping virtual-time loop
+    from . import churn
+    churn.churn_group(corr, ctx, lib.rng_for(ctx.seed, "c16-churn"), os.path.join(scratch, "c16-churn.json"))
 
     # a connect attempt that stays pending for a long stretch of (virtual) time before it fails or succeeds, and a
     # long-lived body: the whole event loop runs on virtual time, so every timer in the code under test is covered
